@@ -127,5 +127,9 @@ def observe(zone, ts):
     d = utc_dt(ts).replace(tzinfo=tz.UTC).astimezone(zone)
     off = d.utcoffset()
     dst = d.dst()
-    return (None if off is None else int(off.total_seconds()), d.tzname(),
-            None if dst is None else int(dst.total_seconds()))
+    def secs(x):
+        if x is None:
+            return None
+        s = x.total_seconds()
+        return int(s) if s == int(s) else s     # sub-second offsets exist
+    return (secs(off), d.tzname(), secs(dst))
